@@ -38,6 +38,49 @@ def to_ref_item(x):
     raise ValueError(x)
 
 
+def to_py(x):
+    """the same slice as a user would write it for ak.Array.__getitem__: Python ints, slices, Ellipsis, np.newaxis, *lists*
+    for index arrays (with None for missing), nested lists for jagged indexes, strings for fields"""
+    if isinstance(x, (list, tuple)) and len(x) > 0 and x[0] == "t":
+        return tuple(to_py(y) for y in x[1:])
+    if x == "...":
+        return Ellipsis
+    if x is None or isinstance(x, int):
+        return x
+    kind = x[0]
+    if kind == "s":
+        return slice(x[1], x[2], x[3])
+    if kind == "f":
+        return x[1]
+    if kind == "ff":
+        return list(x[1])
+    if kind == "a":
+        if x[2] == "int64" and len(x[1]) and not isinstance(x[1][0], list):
+            return list(x[1])                      # a plain Python list of integers
+        return np.array(x[1], dtype=x[2])
+    if kind == "opt":
+        return list(x[1])                          # a Python list with None
+    if kind == "jag":
+        import l3
+        return l3.ak().Array(x[1])                 # an explicit (jagged) awkward array
+    raise ValueError(x)
+
+
+def l3_table_c01(T, tvs, tier):
+    import l3
+    n = len(tvs)
+    out = []
+    sl = list(singles(n, T, tvs, "quick"))
+    if tier == "quick":
+        # every integer, index array, mask, option index and jagged index; range slices thinned to the unit/negative steps
+        sl = [x for x in sl if not (isinstance(x, list) and x[0] == "s" and x[3] not in (None, -1, 2))]
+    items = pair_items(n, T, tvs, "quick")
+    pairs = [["t", a, b] for a in items for b in items if not (a == "..." and b == "...")]
+    for x in sl + pairs:
+        out.append(("getitem %r" % (x,), lambda arr, x=x: l3.tl(arr[to_py(x)]), lambda T, tvs, x=x: refops.getitem(T, tvs, to_ref(x))))
+    return out
+
+
 def to_ref(sl):
     if isinstance(sl, (list, tuple)) and len(sl) > 0 and sl[0] == "t":
         return tuple(to_ref_item(x) for x in sl[1:])
@@ -155,6 +198,20 @@ class C01(e1.E1Check):
     assumptions = ["bridge+mirror marshalling; the Python port of toslice()/getitem<T> from src/python/content.cpp "
                    "stands in for the uncompilable original"]
 
+    l3_table = "C01"
+
+    def l3_spec(self):
+        from values import I, F, S, var, opt, rec, reg
+        return l3_table_c01, [var(I), var(var(I)), opt(var(I)), var(opt(I)), reg(2, I), rec(("x", I), ("y", var(I))),
+                              var(rec(("x", I), ("y", F))), var(S), I]
+
+    def l3_signature(self, T, tvs, label):
+        import ast
+        sl = ast.literal_eval(label[len("getitem "):])
+        sig = {"op": "getitem"}
+        sig.update(self.signature(T, tvs, None, None, "getitem", (sl,), None))
+        return sig
+
     def alphabet(self, T, tvs, tier):
         n = len(tvs)
         ops = [("getitem", (x,)) for x in singles(n, T, tvs, tier)]
@@ -195,7 +252,9 @@ class C01(e1.E1Check):
             if isinstance(x, (list, tuple)) and len(x) > 1 and x[0] == "a":
                 arr = np.array(x[1], dtype=x[2])
                 adv_empty = adv_empty or (int(arr.sum()) == 0 if arr.dtype == np.bool_ else arr.size == 0)
-        sig = {"items": "+".join(kinds), "adv_empty": adv_empty}
+        adv_2d = any(isinstance(x, (list, tuple)) and len(x) > 1 and x[0] == "a" and x[1] and isinstance(x[1][0], list)
+                     for x in (sl[1:] if isinstance(sl, (list, tuple)) and sl and sl[0] == "t" else [sl]))
+        sig = {"items": "+".join(kinds), "adv_empty": adv_empty, "adv_2d": adv_2d}
         if "opt" in kinds and len(kinds) > 1:
             # does the part of the slice before the option-type index select no rows / an option-type row?
             items = sl[1:]
